@@ -888,3 +888,48 @@ func (c *Ctx) nilEncodingIsRefused(rule string) {
 	}
 	R.Min(rule, "lookups of a client-named charset", n, 1)
 }
+
+// mailboxNamesAreValidated (R11.13): no mailbox name reaches the server without having passed the UTF-7 decoder.
+func (c *Ctx) mailboxNamesAreValidated(rule string) {
+	P, R := c.P, c.R
+	R.Explain(rule, "raw bytes in a mailbox name are refused, not processed: every string Session.decodeMailboxName returns without an error is the result of the modified-UTF-7 decoder's String method ((*encoding.Decoder).String) - the decoder is also the only validation of the bytes of a name (it rejects everything outside 0x20-0x7E).  A short cut that hands back the undecoded name lets invalid UTF-8 reach the LIST pattern, where regexp.MustCompile panics in the command goroutine and ends the process.")
+	f := c.fn(rule, "internal/session.(*Session).decodeMailboxName")
+	if f == nil {
+		return
+	}
+	n := 0
+	for _, ret := range engine.Returns(f) {
+		if len(ret.Results) != 2 {
+			continue
+		}
+		n++
+		ok := true
+		var leaves func(v ssa.Value, seen map[ssa.Value]bool)
+		leaves = func(v ssa.Value, seen map[ssa.Value]bool) {
+			if seen[v] {
+				return
+			}
+			seen[v] = true
+			switch t := v.(type) {
+			case *ssa.Phi:
+				for _, e := range t.Edges {
+					leaves(e, seen)
+				}
+			case *ssa.Extract:
+				call, isCall := t.Tuple.(*ssa.Call)
+				if !isCall || call.Call.StaticCallee() == nil || call.Call.StaticCallee().Name() != "String" || !strings.Contains(call.Call.StaticCallee().String(), "encoding.Decoder") {
+					ok = false
+				}
+			case *ssa.Const:
+				if s, isStr := engine.ConstString(t); !isStr || s != "" {
+					ok = false
+				}
+			default:
+				ok = false
+			}
+		}
+		leaves(ret.Results[0], map[ssa.Value]bool{})
+		R.Check(ok, rule, c.name(f)+"|return#"+strconv.Itoa(n)+" decoded", P.Pos(ret.Pos()), "the returned name is the decoder's output", "decodeMailboxName can return a name that did not pass the UTF-7 decoder: unvalidated client bytes reach the mailbox code (LIST compiles them into a regular expression with MustCompile)")
+	}
+	R.Min(rule, "returns of decodeMailboxName", n, 1)
+}
